@@ -84,7 +84,7 @@ def run(name, tier):
             print('%-28s %s OBSOLETE: patch does not apply any more' % (name, pid))
             return True
         t0 = time.time()
-        rc, out = sh('cd %s && PYG_REPO=%s timeout 3600 ./check %s --tier %s' % (VERIF, d, pid, tier))
+        rc, out = sh('cd %s && VERIF_EVIDENCE_DIR=/dev/shm/seedrun-evidence PYG_REPO=%s timeout 3600 ./check %s --tier %s' % (VERIF, d, pid, tier))
         lines = [l for l in out.split('\n') if l.startswith('VIOLATION') or l.startswith('KNOWN-FINDING')]
         detected = rc == 1 and any(l.startswith('VIOLATION') for l in lines)
         concrete = detected and any(l.startswith('VIOLATION') and not l.rstrip().endswith('no-failing-input-found') for l in lines)
